@@ -9,6 +9,7 @@ pub mod c01;
 pub mod c02;
 pub mod c03;
 pub mod c04;
+pub mod c05;
 pub mod topology;
 pub mod c06;
 pub mod c07;
@@ -16,13 +17,17 @@ pub mod c08;
 pub mod c08alloc;
 pub mod c08gen;
 pub mod c09;
+pub mod c10;
 pub mod c11;
 pub mod c13;
+pub mod c14;
 pub mod c15;
 pub mod c18;
 pub mod c19;
+pub mod c20;
 pub mod c16;
 pub mod c16_structs;
+pub mod c17;
 
 /// Quick / thorough tier (scales case counts).
 #[derive(Clone, Copy, PartialEq, Eq, Debug)]
@@ -53,16 +58,21 @@ pub fn property(id: &str) -> Option<(GenFn, RunFn)> {
         "C02" => Some((c02::generate, c02::run)),
         "C03" => Some((c03::generate, c03::run)),
         "C04" => Some((c04::generate, c04::run)),
+        "C05" => Some((c05::generate, c05::run)),
         "C06" => Some((c06::generate, c06::run)),
         "C07" => Some((c07::generate, c07::run)),
         "C08" => Some((c08::generate, c08::run)),
         "C09" => Some((c09::generate, c09::run)),
+        "C10" => Some((c10::generate, c10::run)),
         "C11" => Some((c11::generate, c11::run)),
         "C13" => Some((c13::generate, c13::run)),
+        "C14" => Some((c14::generate, c14::run)),
         "C15" => Some((c15::generate, c15::run)),
         "C18" => Some((c18::generate, c18::run)),
         "C19" => Some((c19::generate, c19::run)),
+        "C20" => Some((c20::generate, c20::run)),
         "C16" => Some((c16::generate, c16::run)),
+        "C17" => Some((c17::generate, c17::run)),
         _ => None,
     }
 }
